@@ -64,6 +64,15 @@ MUTANTS = [
     ('polynomial.py', "nn, nd = na * db + nb * da, da * db", "nn, nd = na * db + nb * da, da", 'poly', 'post __add__'),
     ('polynomial.py', "return la - lb", "return lb - la", 'poly', 'compare'),
     ('polynomial.py', "for i in range(1, l):", "for i in range(0, l):", 'poly', 'compare'),
+    ('polynomial.py', "(ea is not None and ea < eb)", "(ea is not None and ea > eb)", 'poly', 'inner inv-step'),
+    ('polynomial.py', "C = [A[0] * B[0]]", "C = [A[0] + B[0]]", 'poly', 'Polynomial.__mul__'),
+    ('polynomial.py', "while i < len(A) or j < len(B):", "while i < len(A) and j < len(B):", 'poly', 'Polynomial.__mul__'),
+    ('polynomial.py', "itertools.product(range(0, al), range(0, bl))", "itertools.product(range(1, al), range(0, bl))", 'poly', 'the loop runs over all pairs'),
+    ('polynomial.py', "p1 += 1; p2 += 1; continue;", "p1 += 1; continue;", 'poly', 'common-factor inv-step'),
+    ('polynomial.py', "return self.__class__([nnn], [nnd])", "return self.__class__([nnd], [nnn])", 'poly', 'post __mul__'),
+    ('polynomial.py', "while p1 < len(fl1) or p2 < len(fl2):", "while p1 < len(fl1) and p2 < len(fl2):", 'poly', 'post __mul__'),
+    ('polynomial.py', "if f2 is None or (f1 is not None and f1 < f2):", "if f2 is None or (f1 is not None and f1 > f2):", 'poly', 'pass'),   # misses common factors, same value
+    ('polynomial.py', "(ea is not None and ea < eb)", "(ea is not None and ea <= eb)", 'poly', 'pass'),       # equivalent: ties may go either way
 ]
 
 
@@ -97,7 +106,7 @@ def build_group(H, group):
     elif group == 'tape':
         T.vc_tape_operators(H)
     elif group == 'poly':
-        P.vc_compare(H); P.vc_poly_add(H); P.vc_rational(H); P.vc_zero_tests(H)
+        P.vc_compare(H); P.vc_poly_add(H); P.vc_rational(H); P.vc_zero_tests(H); P.vc_poly_mul(H)
     else:
         raise KeyError(group)
 
